@@ -20,17 +20,17 @@ type RelSpec struct {
 
 func restrLists(self, other string) map[string][]ref.Restriction {
 	return map[string][]ref.Restriction{
-		"[user]":            {{Type: "user"}},
-		"[user:*]":          {{Type: "user", Wildcard: true}},
-		"[group]":           {{Type: "group"}},
-		"[user,group]":      {{Type: "user"}, {Type: "group"}},
+		"[user]":             {{Type: "user"}},
+		"[user:*]":           {{Type: "user", Wildcard: true}},
+		"[group]":            {{Type: "group"}},
+		"[user,group]":       {{Type: "user"}, {Type: "group"}},
 		"[user with k,user]": {{Type: "user", Condition: "k"}, {Type: "user"}},
-		"[doc#other]":       {{Type: "doc", Relation: other}},
-		"[doc#self]":        {{Type: "doc", Relation: self}},
-		"[folder#a]":        {{Type: "folder", Relation: "a"}},
-		"[user,doc#other]":  {{Type: "user"}, {Type: "doc", Relation: other}},
-		"[user,doc#self]":   {{Type: "user"}, {Type: "doc", Relation: self}},
-		"[group:*,user]":    {{Type: "group", Wildcard: true}, {Type: "user"}},
+		"[doc#other]":        {{Type: "doc", Relation: other}},
+		"[doc#self]":         {{Type: "doc", Relation: self}},
+		"[folder#a]":         {{Type: "folder", Relation: "a"}},
+		"[user,doc#other]":   {{Type: "user"}, {Type: "doc", Relation: other}},
+		"[user,doc#self]":    {{Type: "user"}, {Type: "doc", Relation: self}},
+		"[group:*,user]":     {{Type: "group", Wildcard: true}, {Type: "user"}},
 	}
 }
 
@@ -295,7 +295,9 @@ func InterlockModels() []Tagged {
 	rws := func(self string, others []string) []*ref.Rewrite {
 		return []*ref.Rewrite{ref.T(), ref.U(ref.T(), ref.TT(self, "p")), ref.U(ref.TT(others[0], "p"), ref.T())}
 	}
-	tag := func(n string, rw *ref.Rewrite, l []ref.Restriction) string { return fmt.Sprintf("%s: %s with %v", n, rw, l) }
+	tag := func(n string, rw *ref.Rewrite, l []ref.Restriction) string {
+		return fmt.Sprintf("%s: %s with %v", n, rw, l)
+	}
 	// two relations
 	for _, la := range lists("a", []string{"b"}) {
 		for _, lb := range lists("b", []string{"a"}) {
@@ -331,9 +333,9 @@ func SameTargetModels() []Tagged {
 	var out []Tagged
 	u := ref.Restriction{Type: "user"}
 	lists := map[string][]ref.Restriction{
-		"[user,doc#b]":        {u, {Type: "doc", Relation: "b"}},
-		"[doc#b]":             {{Type: "doc", Relation: "b"}},
-		"[doc#b with k,user]": {{Type: "doc", Relation: "b", Condition: "k"}, u},
+		"[user,doc#b]":         {u, {Type: "doc", Relation: "b"}},
+		"[doc#b]":              {{Type: "doc", Relation: "b"}},
+		"[doc#b with k,user]":  {{Type: "doc", Relation: "b", Condition: "k"}, u},
 		"[doc#b,doc#b with k]": {{Type: "doc", Relation: "b"}, {Type: "doc", Relation: "b", Condition: "k"}},
 	}
 	order := []string{"[user,doc#b]", "[doc#b]", "[doc#b with k,user]", "[doc#b,doc#b with k]"}
